@@ -169,4 +169,258 @@ def quadRegionOk (K : Nat) (r : RawRegion) : Bool :=
 
 def quadTablesOk (K : Nat) (ls : List RawLayout) : Bool := ls.all fun l => l.regions.all (quadRegionOk K)
 
+/-! ### exactness at loudspeaker positions (see Proofs/C05Exact*.lean, harness/c05_exact.py)
+
+    For a loudspeaker `k` of the layout, with table position `v` (scaled to integers `p`): every region BEFORE the
+    region named by the certificate rejects `p`, and the named region has `k` at the named slot and answers the unit
+    vector of that slot.  Everything is decided from SIGNS of integer polynomials in the scaled coordinates:
+      * Triplet / inner triplets of a VirtualNgon: a Cramer component `N_i / det` of `p · P⁻¹` is `< −1e-11`;
+      * QuadRegion: for each pan axis the certificate names a rational interval `[xl, xh]`; the quadratic
+        `panPoly` has no root in the acceptance window `(−1e-10, 1 + 1e-10)` outside that interval (`noRootIn`: value
+        signs at the end points, discriminant sign, vertex position), and no nearly-real complex pair (`cplxOk`); then
+        either the interval is empty (the axis finds no root), or the bilinear sign test `pvs·positions·p ≤ 0` fails on
+        the whole (clipped) box of the two intervals (checked at its four corners);
+      * the quad that has `k` as corner: the quadratic of each axis has the corner's pan value (0 or 1) as a root and no
+        other root in the window. -/
+
+/-- `1 / 1e-11` (`epsilon` of `Triplet.handle`) -/
+def bigTI : Int := 100000000000
+
+/-- the acceptance test of `Triplet.handle` FAILS: the positions are independent and a component of `p · P⁻¹`
+    (Cramer: `det(p,b,c)/det`, `det(a,p,c)/det`, `det(a,b,p)/det`) is below `−1e-11` -/
+def tripletRejects (a b c p : IV) : Bool :=
+  let d := idet a b c
+  d != 0 &&
+  (decide (bigTI * (idet p b c * d) < -(d * d)) || decide (bigTI * (idet a p c * d) < -(d * d)) ||
+    decide (bigTI * (idet a b p * d) < -(d * d)))
+
+/-- `QuadRegion.panPoly` on scaled integer vectors -/
+def ipanPoly (a b c d p : IV) : Int × Int × Int :=
+  (idot (icross (isub b a) (isub c d)) p, idot (iadd (icross a (isub c d)) (icross (isub b a) d)) p,
+   idot (icross a d) p)
+
+/-- a rational `n / m` (the checker demands `0 < m`) -/
+abbrev Q2 := Int × Int
+
+/-- `m² · f(n/m)` for `f = A t² + B t + C` -/
+def qeval (c : Int × Int × Int) (t : Q2) : Int := c.1 * (t.1 * t.1) + c.2.1 * (t.1 * t.2) + c.2.2 * (t.2 * t.2)
+
+/-- `−1e-10` and `1 + 1e-10`: the open acceptance window of `pan_axis` -/
+def winLo : Q2 := (-1, bigEI)
+def winHi : Q2 := (bigEI + 1, bigEI)
+
+/-- sign conditions from which `A t² + B t + C` has no root in the OPEN interval `(u, v)` -/
+def noRootIn (c : Int × Int × Int) (u v : Q2) : Bool :=
+  decide (0 < u.2) && decide (0 < v.2) &&
+  (decide (v.1 * u.2 ≤ u.1 * v.2) ||
+   (if c.1 == 0 then
+      ((decide (0 ≤ qeval c u) && decide (0 ≤ qeval c v)) || (decide (qeval c u ≤ 0) && decide (qeval c v ≤ 0))) &&
+        (qeval c u != 0 || qeval c v != 0)
+    else
+      decide (c.2.1 * c.2.1 - 4 * c.1 * c.2.2 < 0) ||
+      (decide (c.1 * qeval c u ≤ 0) && decide (c.1 * qeval c v ≤ 0)) ||
+      (decide (0 ≤ c.1 * qeval c u) && decide (0 ≤ c.1 * (2 * c.1 * u.1 + c.2.1 * u.2))) ||
+      (decide (0 ≤ c.1 * qeval c v) && decide (c.1 * (2 * c.1 * v.1 + c.2.1 * v.2) ≤ 0))))
+
+/-- the complex-pair branch of `pan_axis` (imaginary part below 1e-10) is not taken -/
+def cplxOk (c : Int × Int × Int) : Bool :=
+  c.1 == 0 || decide (0 ≤ c.2.1 * c.2.1 - 4 * c.1 * c.2.2) ||
+    decide (4 * (c.1 * c.1) ≤ -(c.2.1 * c.2.1 - 4 * c.1 * c.2.2) * (bigEI * bigEI))
+
+/-- every pan value `pan_axis` can return for the quadratic `c` is the clip of a root in `[xl, xh]` -/
+def axisOk (c : Int × Int × Int) (xl xh : Q2) : Bool := cplxOk c && noRootIn c winLo xl && noRootIn c xh winHi
+
+/-- hint of the certificate for one QuadRegion: root intervals of the two pan axes -/
+structure QHint where
+  xl : Q2 := (0, 1)
+  xh : Q2 := (0, 1)
+  yl : Q2 := (0, 1)
+  yh : Q2 := (0, 1)
+
+/-- `n / m` clipped to `[0, 1]` -/
+def clipQ (t : Q2) : Q2 := if t.1 < 0 then (0, 1) else if t.2 < t.1 then (1, 1) else t
+
+def ltQ (s t : Q2) : Bool := decide (s.1 * t.2 < t.1 * s.2)
+
+/-- `m₁ m₂ ·` the bilinear form `(1−x)(1−y) α + x(1−y) β + x y γ + (1−x) y δ` at `x = n₁/m₁`, `y = n₂/m₂` -/
+def bilAt (al be ga de : Int) (x y : Q2) : Int :=
+  (x.2 - x.1) * (y.2 - y.1) * al + x.1 * (y.2 - y.1) * be + x.1 * y.1 * ga + (x.2 - x.1) * y.1 * de
+
+/-- `QuadRegion.handle` answers `None` at `p` (ordered corners `a b c d`) -/
+def quadRejects (a b c d p : IV) (h : QHint) : Bool :=
+  let px := ipanPoly a b c d p
+  let py := ipanPoly b c d a p
+  (axisOk px h.xl h.xh && ltQ h.xh h.xl) || (axisOk py h.yl h.yh && ltQ h.yh h.yl) ||
+  (axisOk px h.xl h.xh && axisOk py h.yl h.yh &&
+    decide (0 < h.xl.2) && decide (0 < h.xh.2) && decide (0 < h.yl.2) && decide (0 < h.yh.2) &&
+    decide (bilAt (idot a p) (idot b p) (idot c p) (idot d p) (clipQ h.xl) (clipQ h.yl) ≤ 0) &&
+    decide (bilAt (idot a p) (idot b p) (idot c p) (idot d p) (clipQ h.xl) (clipQ h.yh) ≤ 0) &&
+    decide (bilAt (idot a p) (idot b p) (idot c p) (idot d p) (clipQ h.xh) (clipQ h.yl) ≤ 0) &&
+    decide (bilAt (idot a p) (idot b p) (idot c p) (idot d p) (clipQ h.xh) (clipQ h.yh) ≤ 0))
+
+/-- `r0 ∈ {0, 1}` is a root of the quadratic `c ≠ 0` and its only root in the acceptance window -/
+def rootIs (c : Int × Int × Int) (r0 : Int) : Bool :=
+  (r0 == 0 || r0 == 1) && qeval c (r0, 1) == 0 && (c.1 != 0 || c.2.1 != 0 || c.2.2 != 0) &&
+  noRootIn c winLo (r0, 1) && noRootIn c (r0, 1) winHi
+
+/-- at its ordered corner number `kk` (`p` = that corner) the quad finds the pan values of the corner and passes its
+    final sign test -/
+def quadExactAt (a b c d p : IV) (kk : Nat) : Bool :=
+  let px := ipanPoly a b c d p
+  let py := ipanPoly b c d a p
+  decide (0 < idot p p) &&
+  (match kk with
+   | 0 => p == a && rootIs px 0 && rootIs py 0
+   | 1 => p == b && rootIs px 1 && rootIs py 0
+   | 2 => p == c && rootIs px 1 && rootIs py 1
+   | 3 => p == d && rootIs px 0 && rootIs py 1
+   | _ => false)
+
+/-- the inner triplet number `i` of a VirtualNgon with scaled positions `ps`, centre `ce` -/
+def fanTri (ps : List IV) (order : List Nat) (i : Nat) : IV × IV :=
+  (ps.getD (order.getD i 0) (0, 0, 0), ps.getD (order.getD ((i + 1) % ps.length) 0) (0, 0, 0))
+
+/-- region `r` answers `None` at the scaled position `p` -/
+def regionRejects (K : Nat) (r : RawRegion) (p : IV) (h : QHint) : Bool :=
+  match r.kind, r.pos.mapM (scaleP3 K) with
+  | 0, some [a, b, c] => tripletRejects a b c p
+  | 1, some ps =>
+    (match scaleP3 K r.centre with
+     | some ce => (List.range ps.length).all fun i => tripletRejects (fanTri ps r.order i).1 (fanTri ps r.order i).2 ce p
+     | none => false)
+  | 2, some [q0, q1, q2, q3] =>
+    isPermOfRange r.order 4 &&
+    (let c := fun k => [q0, q1, q2, q3].getD (r.order.getD k 0) (0, 0, 0)
+     quadRejects (c 0) (c 1) (c 2) (c 3) p h)
+  | _, _ => false
+
+/-- region `r` answers the unit vector of its slot `s` at the scaled position `p` of that slot -/
+def regionExact (K : Nat) (r : RawRegion) (s : Nat) (p : IV) : Bool :=
+  match r.kind, r.pos.mapM (scaleP3 K) with
+  | 0, some [a, b, c] => idet a b c != 0 && [a, b, c][s]? == some p
+  | 1, some ps =>
+    (match scaleP3 K r.centre with
+     | some ce =>
+       let n := ps.length
+       r.cdm.length == n && ps[s]? == some p &&
+       (match (List.range n).find? (fun j => r.order.getD j 0 == s || r.order.getD ((j + 1) % n) 0 == s) with
+        | some j =>
+          (List.range j).all (fun i => tripletRejects (fanTri ps r.order i).1 (fanTri ps r.order i).2 ce p) &&
+          idet (fanTri ps r.order j).1 (fanTri ps r.order j).2 ce != 0 &&
+          r.order.getD j 0 < n && r.order.getD ((j + 1) % n) 0 < n &&
+          r.order.getD j 0 != r.order.getD ((j + 1) % n) 0
+        | none => false)
+     | none => false)
+  | 2, some [q0, q1, q2, q3] =>
+    isPermOfRange r.order 4 &&
+    (let c := fun k => [q0, q1, q2, q3].getD (r.order.getD k 0) (0, 0, 0)
+     match (List.range 4).find? (fun kk => r.order.getD kk 0 == s) with
+     | some kk => quadExactAt (c 0) (c 1) (c 2) (c 3) p kk
+     | none => false)
+  | _, _ => false
+
+/-- the table position of inner channel `k`: its position in the first region that has it as a channel -/
+def speakerPos (l : RawLayout) (k : Nat) : Option P3 :=
+  l.regions.findSome? fun r => ((r.ch.zip r.pos).find? (fun cp => cp.1 == k)).map (·.2)
+
+/-- column `k` of the downmix matrix is the unit vector `e_k` (channel `k` is a real loudspeaker fed by nobody else) -/
+def columnUnit (l : RawLayout) (k : Nat) : Bool :=
+  (List.range l.nReal).all fun i =>
+    ((l.downmix.find? (fun e => e.1 == i && e.2.1 == k)).map (·.2.2)) == (if i == k then some ((1 : Int), (0 : Int)) else none)
+
+/-- certificate for one loudspeaker -/
+structure SpkCert where
+  /-- the region that answers (the first one that has the loudspeaker as a channel) -/
+  region : Nat
+  /-- the loudspeaker's slot in that region's channel list -/
+  slot : Nat
+  /-- one hint per earlier region (only read for QuadRegions) -/
+  hints : List QHint
+
+/-- **The check for loudspeaker `k`** of the table `l` -/
+def spkOk (K : Nat) (l : RawLayout) (k : Nat) (c : SpkCert) : Bool :=
+  match l.regions[c.region]? with
+  | none => false
+  | some r =>
+    decide (k < l.nReal) && decide (l.nReal ≤ l.nInner) && columnUnit l k &&
+    r.ch[c.slot]? == some k && allDistinct r.ch && r.ch.all (· < l.nInner) && r.pos.length == r.ch.length &&
+    speakerPos l k == r.pos[c.slot]? &&
+    (match (r.pos[c.slot]?).bind (scaleP3 K) with
+     | none => false
+     | some p =>
+       (List.range c.region).all (fun j =>
+         match l.regions[j]? with
+         | some rj => regionRejects K rj p (c.hints.getD j {})
+         | none => false) &&
+       regionExact K r c.slot p)
+
+/-- the loudspeakers of the layout the panner is configured for: all real channels, or the two of 0+2+0 -/
+def nSpeakers (l : RawLayout) : Nat := match l.stereo with | none => l.nReal | some _ => 2
+
+/-- the output index of loudspeaker `k`: itself, or left / right of the 0+2+0 wrapper for M+030 / M-030 -/
+def speakerOut (l : RawLayout) (k : Nat) : Nat :=
+  match l.stereo with
+  | none => k
+  | some (a, b) => if k == 0 then a else b
+
+def exactLayoutOk (K : Nat) (l : RawLayout) (cs : List SpkCert) : Bool :=
+  cs.length == nSpeakers l && decide (nSpeakers l ≤ l.nReal) &&
+  (List.range cs.length).all (fun k => spkOk K l k (cs.getD k ⟨0, 0, []⟩)) &&
+  (match l.stereo with
+   | none => true
+   | some (a, b) => a < 2 && b < 2 && a != b && l.nReal == 5)
+
+def exactTablesOk (K : Nat) (ls : List RawLayout) (cs : List (List SpkCert)) : Bool :=
+  ls.length == cs.length && (ls.zip cs).all fun lc => exactLayoutOk K lc.1 lc.2
+
+/-! ### layer separation (see Proofs/C05ExactLayer.lean)
+
+    `rows` = real channels of one layer (lower: table position with z < 0; upper: z > 0).  Every region that has a channel
+    feeding one of them through the downmix must be "one-sided": a Triplet or VirtualNgon with independent positions
+    whose vertices (and virtual centre) all have z in [−1, 0] (lower) resp. [0, 1] (upper).  Such a region rejects every
+    direction with z > 3e-11 resp. z < −3e-11 (the acceptance slack is 1e-11 per vertex).  QuadRegions are not
+    one-sided in this sense (their acceptance depends on the roots of two quadratics): `layerOkQ` lets them through and
+    the theorem that uses it keeps their rejection as a hypothesis. -/
+
+/-- inner channel `c` feeds the real channel `i` through the downmix -/
+def feeds (l : RawLayout) (i c : Nat) : Bool := l.downmix.any fun e => e.1 == i && e.2.1 == c
+
+def zSide (K : Nat) (up : Bool) (vs : List IV) : Bool :=
+  vs.all fun v => if up then decide (0 ≤ v.2.2) && decide (v.2.2 ≤ 2 ^ K) else decide (-(2 ^ K) ≤ v.2.2) && decide (v.2.2 ≤ 0)
+
+def regionOneSided (K : Nat) (up : Bool) (r : RawRegion) : Bool :=
+  match r.kind, r.pos.mapM (scaleP3 K) with
+  | 0, some [a, b, c] => idet a b c != 0 && zSide K up [a, b, c]
+  | 1, some ps =>
+    (match scaleP3 K r.centre with
+     | some ce =>
+       zSide K up (ce :: ps) &&
+       (List.range ps.length).all fun i => idet (fanTri ps r.order i).1 (fanTri ps r.order i).2 ce != 0
+     | none => false)
+  | _, _ => false
+
+/-- region `r` has a channel that feeds one of the real channels `rows` -/
+def touches (l : RawLayout) (rows : List Nat) (r : RawRegion) : Bool := r.ch.any fun c => rows.any fun i => feeds l i c
+
+def layerOk (K : Nat) (l : RawLayout) (rows : List Nat) (up : Bool) : Bool :=
+  l.regions.all fun r => !touches l rows r || regionOneSided K up r
+
+/-- the same, QuadRegions let through -/
+def layerOkQ (K : Nat) (l : RawLayout) (rows : List Nat) (up : Bool) : Bool :=
+  l.regions.all fun r => !touches l rows r || r.kind == 2 || regionOneSided K up r
+
+/-- the real channels whose table position is strictly below (`up = false`) / above (`up = true`) the horizontal plane;
+    none for 0+2+0 -/
+def layerRows (l : RawLayout) (up : Bool) : List Nat :=
+  match l.stereo with
+  | some _ => []
+  | none =>
+    (List.range l.nReal).filter fun k =>
+      match speakerPos l k with
+      | some v => if up then decide (0 < v.2.2.1) else decide (v.2.2.1 < 0)
+      | none => false
+
+def layerTablesOk (K : Nat) (ls : List RawLayout) : Bool :=
+  ls.all fun l => layerOk K l (layerRows l false) false && layerOkQ K l (layerRows l true) true
+
 end Earverif.PointSource.Cover
